@@ -1,4 +1,5 @@
 import PC.Tie.Restart
+import PC.Proofs.SupRestart
 import PC.Spec.Pure
 import PC.Proofs.SupArms
 import PC.Spec.SupSpec
@@ -155,5 +156,24 @@ end Loop
 example : isRestartable "on_failure" 2 1 3 false = true := by decide
 example : isRestartable "on_failure" 2 2 3 false = false := by decide
 example : restartWanted "always" 0 7 0 false := by unfold restartWanted; decide
+
+/-! ### global: the restart counter and `max_restarts` -/
+
+/-- **Every reachable state, every schedule**: the restart counter of a process whose `max_restarts`
+    is set never exceeds it. (The decision `isRestartable` — the translated code — allows a restart
+    under `max_restarts = m ≠ 0` only while the counter is below `m`; the restart decision is the only
+    arm that touches a counter: `stepThread_r`, 60 per-arm lemmas.) -/
+theorem restarts_never_exceed_max (g : PC.Sup.Gran) (o : Bool) (cfgs : List PC.Sup.Cfg) {s : PC.Sup.Sys}
+    (hr : PC.Sup.Reach (PC.Sup.init g o cfgs) s) (n : PC.Sup.Name) (hn : (s.cfg n).maxRestarts ≠ 0) :
+    (s.ps n).restarts ≤ (s.cfg n).maxRestarts :=
+  PC.Sup.reachF_rInv g o cfgs hr.fine n hn
+
+/-- not vacuous, and tight: `always` with `max_restarts: 2` — after the third exit the counter is 2
+    and the process is Completed, not relaunched -/
+example :
+    let s := (PC.Sup.runTrace (PC.Sup.init .coarse false [{ policy := .always, maxRestarts := 2 }])
+      [.call 0 .runMain, .run 0, .run 1, .exit 0 0, .run 1, .run 1, .exit 0 0, .run 1, .run 1, .exit 0 0, .run 1]).1
+    (s.ps 0).restarts = 2 ∧ (s.ps 0).status = .completed := by
+  set_option maxRecDepth 8000 in decide
 
 end PC.Props.C02
